@@ -77,7 +77,8 @@ MAP = {
     "slice_input": [(I, r"Input<'src> for &'src \[T\] \{")], "array_input": [(I, r"Input<'src> for &'src \[T; N\]")],
     "str_": [(I, r"Input<'src> for &'src str"), (I, r"SliceInput<'src> for &'src str")],
     "mapped_input": [(I, r"Input<'src> for MappedInput<T, S, I, F>")], "iter_input": [("src/stream.rs", r"for IterInput<I, S>")],
-    "stream_input": [("src/stream.rs", r"ValueInput<'a> for Stream<I>")], "span_wrappers": [(I, r"for MappedSpan<S, I, F>"), (I, r"Input<'src> for WithContext<S, I>")],
+    "stream_input": [("src/stream.rs", r"ValueInput<'a> for Stream<I>")], "stream_boxed_input": [("src/stream.rs", r"ValueInput<'a> for Stream<I>"), ("src/stream.rs", r"pub fn boxed<'a>")],
+    "iter_input_empty_match": [("src/stream.rs", r"for IterInput<I, S>")], "span_wrappers": [(I, r"for MappedSpan<S, I, F>"), (I, r"Input<'src> for WithContext<S, I>")],
     "err_expected_found": [("src/error.rs", r"fn expected_found<E: IntoIterator<Item = L>>"), ("src/error.rs", r"LabelError<'a, I, L> for Rich<'a, I::Token, I::Span>"), ("src/error.rs", r"LabelError<'a, I, L> for Simple<'a, I::Token, I::Span>"), ("src/error.rs", r"LabelError<'a, I, L> for Cheap<I::Span>")],
     "err_rich_merge_expected_found": [("src/error.rs", r"fn merge_expected_found<E: IntoIterator<Item = L>>")],
     "err_rich_replace": [("src/error.rs", r"fn replace_expected_found<E: IntoIterator<Item = L>>")],
